@@ -445,7 +445,11 @@ func c36DecimalType(p, s int) *c36Type {
 				v = "0." + strings.Repeat("5", s)
 			}
 		}
-		return c36Val{lit: v, key: "d:" + c36CanonDecimal(v, s)}
+		var tags []string
+		if len(strings.TrimLeft(strings.NewReplacer("-", "", ".", "").Replace(v), "0")) > 15 {
+			tags = append(tags, "decimal_gt15digits")
+		}
+		return c36Val{lit: v, key: "d:" + c36CanonDecimal(v, s), tags: tags}
 	}
 	t.obs = func(q string) []string { return []string{"CAST(" + q + " AS CHAR)"} }
 	if p-s >= 1 {
@@ -1065,7 +1069,7 @@ func c36GenTable(rt *rapid.T, label, name string, db *c36DB, g *c36Gate) c36Tabl
 		}
 	}
 	// foreign key to an earlier table with an auto-increment key
-	if len(db.tables) > 0 && rapid.IntRange(0, 1).Draw(rt, label+".hasfk") == 0 {
+	if g.format == "" && len(db.tables) > 0 && rapid.IntRange(0, 1).Draw(rt, label+".hasfk") == 0 {
 		var cands []int
 		for i, p := range db.tables {
 			if p.autoPK && len(p.rows)-p.delLast > 0 {
@@ -1668,12 +1672,14 @@ var c36FormatRestrictions = map[string][]string{
 	},
 	"parquet": {
 		"no BIT columns; DECIMAL columns are NOT NULL (dolt's parquet import panics on a NULL decimal)",
+		"DECIMAL values have at most 15 significant digits (parquet/writer.go: 'the parquet-go library uses big.Float to write ... and loses precision for long decimals')",
 		"column names contain no '.' (the parquet import drops such a column)",
 	},
 	"all": {
 		"no generated columns (file exports include the generated column and the import tries to write it)",
 		"row values only: the table schema comes from the generator's CREATE TABLE (dolt table import -r), so SHOW CREATE TABLE / AUTO_INCREMENT counters / views / triggers are not compared",
 		"rows written with the DEFAULT keyword are left out",
+		"no foreign keys (`dolt table import -r` truncates the table, which dolt refuses for a referenced table)",
 	},
 }
 
@@ -1707,6 +1713,10 @@ func c36FormatValueOK(format string, t *c36Type, v c36Val) bool {
 		if t.family == "json" && strings.Contains(v.lit, "\\r") {
 			return false
 		}
+	case "parquet":
+		if has("decimal_gt15digits") {
+			return false
+		}
 	case "json":
 		if has("float_exponent") || has("float32_max") || has("str_long") || has("json_scalar_top") || has("json_exponent_number") || has("json_null_literal") {
 			return false
@@ -1723,6 +1733,8 @@ func c36FormatFallback(t *c36Type) c36Val {
 		return c36Val{lit: c36QuoteStr(t.members[len(t.members)-1]), key: fmt.Sprintf("e:%d", len(t.members)-1)}
 	case "float":
 		return c36Val{lit: "1.5e0"}
+	case "decimal":
+		return c36Val{lit: "0", key: "d:0"}
 	case "json":
 		return c36Val{lit: "'{\"a\": [1, \"é\"]}'", tags: []string{"json_unicode"}}
 	}
